@@ -1104,7 +1104,7 @@ func urlEscapeOf(v ssa.Value, depth int) string {
 		if len(ret.Results) != 1 {
 			continue
 		}
-		if e := urlEscapeOf(ret.Results[0], depth+1); e != "" {
+		if e := urlEscapeOf(RetVals(ret)[0], depth+1); e != "" {
 			res = e
 		}
 	}
